@@ -7,9 +7,12 @@ C06 — reader level: model of the read path of the SQL feeds *including their c
   provider/feed/alchemy.py  Results._frames (class attribute of    `State.mem`  (process-wide, every alchemy-based
       Feed.Reader: one per process), get_or_exec, exists               reader shares it)
   Results._key2path: $FORML_HOME/.cache/alchemy/<sha256(sql)>      `State.disk` (survives a restart)
-  Results._statement2key(statement) = sha256(SQL text)             the key is the emitted `SqlSel` tree itself (the
-                                                                   text is a function of the tree; the connection /
-                                                                   feed is *not* part of the key)
+  Results._statement2key(statement) = sha256(SQL text rendered     `keyOf q = Render.sel q`: the token sequence of the
+      with `literal_binds`: the literal values are in the text)        rendered statement *including its literal values*
+                                                                   (ForML.Model.SqlRender; the connection / feed is
+                                                                   *not* part of the key)
+  io/_input/_producer.py  Reader._parse_statement (`lru_cache`     `State.parsed`: per reader (= feed of the process)
+      per reader instance, keyed by the DSL statement)                 and statement the emitted SQL; gone at restart
   provider/feed/lazy.py  Feed.Reader.BACKEND (in-memory DuckDB,    `State.backend`
       class attribute), register(origin.key, frame)
   lazy.Feed.Reader.PARTITIONS keyed by Origin (== by `source`)     `State.partitions`
@@ -22,6 +25,7 @@ Core Lean only.
 -/
 import ForML.Model.Parser
 import ForML.Model.DslDenote
+import ForML.Model.SqlRender
 
 namespace ForML.FeedCache
 open ForML ForML.Dsl ForML.Rel ForML.Parser
@@ -39,12 +43,19 @@ structure Feed where
   storage : Nat
   deriving Repr, Inhabited
 
+/-- `Results._statement2key` before hashing: the rendered statement with its literal values in line -/
+abbrev Key := Render.Text
+
+def keyOf (q : SqlSel) : Key := Render.sel q
+
 structure State where
   storages : List Db
-  mem : List (SqlSel × ORel) := []
-  disk : List (SqlSel × ORel) := []
+  mem : List (Key × ORel) := []
+  disk : List (Key × ORel) := []
   backend : Db := []
   partitions : List Source := []
+  /-- `Reader._parse_statement` cache: (reader = index of the feed, statement) ↦ emitted SQL -/
+  parsed : List ((Nat × Source) × SqlSel) := []
   deriving Repr, Inhabited
 
 inductive Op where
@@ -102,7 +113,7 @@ def usedTables : Source → List Source
 def storageOf (st : State) (f : Feed) : Db := st.storages.getD f.storage []
 
 /-- `Results.exists` -/
-def cached (st : State) (q : SqlSel) : Bool := (st.mem.lookup q).isSome || (st.disk.lookup q).isSome
+def cached (st : State) (q : SqlSel) : Bool := (st.mem.lookup (keyOf q)).isSome || (st.disk.lookup (keyOf q)).isSome
 
 /-- lazy feeds: `BACKEND.execute(register(origin.key, origin(partitions)))` for every table of the statement whose
 origin is not yet in `PARTITIONS` (origins compare by their source only) -/
@@ -119,30 +130,44 @@ def registerTables (st : State) (f : Feed) : List Source → State
           { st with backend := (key, content) :: st.backend.filter (·.1 != key), partitions := t :: st.partitions }
     registerTables st f ts
 
-/-- one `reader(statement)` call -/
-def read (st : State) (f : Feed) (s : Source) : State × Option ORel :=
-  match parse f.srcs s with
-  | .error _ => (st, none)
-  | .ok q =>
-    let st := if f.kind = .lazy && !cached st q then registerTables st f (usedTables s) else st
-    match st.mem.lookup q with
-    | some frame => (st, some frame)
+/-- `Reader._parse_statement(statement)` of reader `i`: the cached SQL, else parse and remember (a failing parse is
+not remembered: `lru_cache` does not cache exceptions) -/
+def parseCached (st : State) (i : Nat) (f : Feed) (s : Source) : State × Except PErr SqlSel :=
+  match st.parsed.lookup (i, s) with
+  | some q => (st, .ok q)
+  | none =>
+    match parse f.srcs s with
+    | .error e => (st, .error e)
+    | .ok q => ({ st with parsed := ((i, s), q) :: st.parsed }, .ok q)
+
+/-- `Feed.Reader.__call__` after parsing: (lazy feeds) register the tables unless the result is known, then
+`Results.get_or_exec` -/
+def exec (st : State) (f : Feed) (s : Source) (q : SqlSel) : State × Option ORel :=
+  let st := if f.kind = .lazy && !cached st q then registerTables st f (usedTables s) else st
+  match st.mem.lookup (keyOf q) with
+  | some frame => (st, some frame)
+  | none =>
+    match st.disk.lookup (keyOf q) with
+    | some frame => ({ st with mem := (keyOf q, frame) :: st.mem }, some frame)
     | none =>
-      match st.disk.lookup q with
-      | some frame => ({ st with mem := (q, frame) :: st.mem }, some frame)
-      | none =>
-        let db := if f.kind = .lazy then st.backend else storageOf st f
-        match evalSql q db with
-        | none => (st, none)
-        | some frame => ({ st with mem := (q, frame) :: st.mem, disk := (q, frame) :: st.disk }, some frame)
+      let db := if f.kind = .lazy then st.backend else storageOf st f
+      match evalSql q db with
+      | none => (st, none)
+      | some frame => ({ st with mem := (keyOf q, frame) :: st.mem, disk := (keyOf q, frame) :: st.disk }, some frame)
+
+/-- one `reader(statement)` call of the reader of feed `i` -/
+def read (st : State) (i : Nat) (f : Feed) (s : Source) : State × Option ORel :=
+  match parseCached st i f s with
+  | (st, .error _) => (st, none)
+  | (st, .ok q) => exec st f s q
 
 def step (feeds : List Feed) (st : State) : Op → State × Option (Option ORel)
   | .read i s =>
     match feeds[i]? with
     | none => (st, some none)
-    | some f => let (st, out) := read st f s; (st, some out)
+    | some f => let (st, out) := read st i f s; (st, some out)
   | .mutate i db => ({ st with storages := st.storages.set i db }, none)
-  | .restart => ({ st with mem := [], backend := [], partitions := [] }, none)
+  | .restart => ({ st with mem := [], backend := [], partitions := [], parsed := [] }, none)
 
 /-- outputs of the reads of a history, in order -/
 def run (feeds : List Feed) : State → List Op → List (Option ORel)
